@@ -108,8 +108,11 @@ func handleRequestID(r *http.Request, w http.ResponseWriter, cfg config.LoggingC
 		return ""
 	}
 
-	requestID := strings.TrimSpace(r.Header.Get(header))
-	if requestID == "" {
+	// A supplied identifier is passed on and echoed exactly as it came (the
+	// backend sees the request header untouched, so the response must carry the
+	// same bytes); only a blank one counts as missing.
+	requestID := r.Header.Get(header)
+	if strings.TrimSpace(requestID) == "" {
 		requestID = generateIdentifier("req")
 		r.Header.Set(header, requestID)
 	}
@@ -122,8 +125,8 @@ func handleTraceID(r *http.Request, w http.ResponseWriter, cfg config.LoggingCon
 		return ""
 	}
 
-	traceID := strings.TrimSpace(r.Header.Get(header))
-	if traceID == "" {
+	traceID := r.Header.Get(header)
+	if strings.TrimSpace(traceID) == "" {
 		traceID = generateIdentifier("trace")
 		r.Header.Set(header, traceID)
 	}
